@@ -1562,6 +1562,7 @@ def run(rep, tier):
     rep.rule("R13.2", "every marker / fixed name is in the component encoder's legacy vocabulary")
     rep.rule("R13.3", "function export names flow from legacy_core_export_name / wasm_export_name")
     rep.rule("R13.4", "each backend has a destructor export name site")
+    rep.rule("R13.6", "future/stream intrinsic indices are positions in Function::find_futures_and_streams")
     rep.rule("R13.5", "export-only intrinsics are imported from an [export] module, root intrinsics from $root")
     holder = {}
 
@@ -1583,5 +1584,7 @@ def run(rep, tier):
     V, W = holder["V"], holder["W"]
     for be in (ALL if tier == "thorough" else QUICK):
         rep.guard("R13", f"backend {be}", lambda be=be: backend(rep, be, V, W, tier))
+        from .C13_index import index_obligations
+        rep.guard("R13.6", f"future/stream index {be}", lambda be=be: index_obligations(rep, "R13.6", [be]))
     if tier == "thorough":
         rep.guard("R13.2", "runtime link_name vocabulary", lambda: runtime_link_names(rep, V))
